@@ -1,6 +1,6 @@
 """C02 The hash equals the value defined by the written specification."""
 import astq
-from rules import aes, argon, blake, decode, driver, dsinit, interpsem, spec, sshash, x86loop, rtpreserve, a64sem, a64hsem, rvhsem, x86hsem, a64dsread, rvdsread, a64fp, rvfp
+from rules import aes, argon, blake, decode, driver, dsinit, interpsem, spec, sshash, x86loop, rtpreserve, a64sem, a64hsem, rvhsem, x86hsem, a64dsread, rvdsread, a64fp, rvfp, cfrcross
 
 LEVEL = 'other'
 TECHNIQUE = 'constant-table and step-sequence agreement between doc/specs.md (parsed tables, hex blocks, lane diagrams) and the resolved AST / assembled objects; FIPS-197 decomposition for the AES round'
@@ -22,6 +22,8 @@ EXPLANATION += ' X86-/A64-/RV-LOOPLOAD.'
 EXPLANATION += ' A64-FP-HSEM.'
 
 EXPLANATION += ' RV-FP-HSEM.'
+
+EXPLANATION += ' A64-CFR-BITS, RV-CFR-BITS.'
 
 
 def run(ctx, R):
@@ -78,3 +80,5 @@ def run(ctx, R):
     rtpreserve.rule_store_order(ctx, R, 'rv64')
     a64fp.rule_fp_hsem(ctx, R)
     rvfp.rule_fp_hsem(ctx, R)
+    cfrcross.rule_a64(ctx, R)
+    cfrcross.rule_rv(ctx, R)
